@@ -86,7 +86,7 @@ theorem dead_move {s s' : State} {c c' : Nat} {frm : List St} {to : St} (hd : de
 theorem beq_false_of_ne {a b : Nat} (h : a ≠ b) : (a == b) = false := by simp [h]
 
 /-- THE absorbing lemma: a dead connection stays dead and is not used by any accepted event -/
-theorem dead_step {s s' : State} {c : Nat} {e : Ev} (hd : dead s c) (h : step s e = some s') :
+theorem dead_step {f : TFacts} (hf : f.dropFailed = true) {s s' : State} {c : Nat} {e : Ev} (hd : dead s c) (h : step f s e = some s') :
     dead s' c ∧ uses c e = false := by
   cases e with
   | new c' g =>
@@ -122,6 +122,7 @@ theorem dead_step {s s' : State} {c : Nat} {e : Ev} (hd : dead s c) (h : step s 
   | release c' kept =>
     cases kept with
     | true =>
+      have h : move s c' [.doneOk, .fresh] .idle = some s' := by simpa [step, hf] using h
       have := dead_move hd h (fun _ => ⟨Or.inl (by decide), by decide⟩)
       refine ⟨this.1, ?_⟩
       by_cases hc : c' = c
@@ -147,20 +148,21 @@ theorem dead_step {s s' : State} {c : Nat} {e : Ev} (hd : dead s c) (h : step s 
     · exact Or.inl (get_closeGroup hd (by decide))
     · exact Or.inr (get_closeGroup hd (by decide))
   | exit c' =>
+    have h : move s c' [.doneFail, .closing] .exited = some s' := by simpa [step, hf] using h
     have := dead_move hd h (fun _ => ⟨Or.inr rfl, by decide⟩)
     exact ⟨this.1, rfl⟩
 
-theorem dead_run {s s' : State} {c : Nat} (es : List Ev) (hd : dead s c) (h : run s es = some s') :
+theorem dead_run {f : TFacts} (hf : f.dropFailed = true) {s s' : State} {c : Nat} (es : List Ev) (hd : dead s c) (h : run f s es = some s') :
     dead s' c ∧ ∀ e ∈ es, uses c e = false := by
   induction es generalizing s with
   | nil => simp only [run, Option.some.injEq] at h; subst h; exact ⟨hd, by simp⟩
   | cons e es ih =>
     simp only [run] at h
-    cases hs : step s e with
+    cases hs : step f s e with
     | none => simp [hs] at h
     | some s1 =>
       simp only [hs] at h
-      have h1 := dead_step hd hs
+      have h1 := dead_step hf hd hs
       have h2 := ih h1.1 h
       refine ⟨h2.1, ?_⟩
       intro e' he'
@@ -168,12 +170,12 @@ theorem dead_run {s s' : State} {c : Nat} (es : List Ev) (hd : dead s c) (h : ru
       · exact h1.2
       · exact h2.2 e' hm
 
-theorem run_append {s : State} (a b : List Ev) : run s (a ++ b) = (run s a).bind (fun s1 => run s1 b) := by
+theorem run_append {f : TFacts} {s : State} (a b : List Ev) : run f s (a ++ b) = (run f s a).bind (fun s1 => run f s1 b) := by
   induction a generalizing s with
   | nil => rfl
   | cons e es ih =>
     simp only [List.cons_append, run]
-    cases step s e with
+    cases step f s e with
     | none => rfl
     | some s1 => exact ih
 
